@@ -274,4 +274,79 @@ def C13(ctx):
         ctx.cov["samples"].append({"program": dsl.pretty(progs[0]), "iterations": U1[0]["iters"], "stop_points": sorted({m[1] for m in meta if m[0] == 0})})
 
 
-CHECKS = {"C13": C13, "C14": C14, "C10": C10, "C11": C11, "C01": C01, "C04": C04, "C05": C05, "C07": C07, "C08": C08, "C09": C09, "C02": C02, "C03": C03}
+def C15(ctx):
+    import pathcheck, enginecheck, random, loomrun
+    ctx.assumptions += ["'could have continued' = the previous thread's next instruction is enabled in the LoomSem state and is not "
+                        "a voluntary yield; the op-level count can only be smaller than loom's branch-level count",
+                        "programs with yield / await / Notify::wait are not in this family (voluntary yields)"]
+    rng = random.Random(ctx.seed * 4099 + 41)
+    pool = [p for p in families.litmus(ctx.tier, ctx.seed, avoid=(families.q_mo, families.q_f16)) if len(p["threads"]) <= 4]
+    pool += [p for p in families.syncmix(ctx.tier, ctx.seed)]
+    pool += [p for p in families.locks(ctx.tier, ctx.seed)]
+    pool = [p for p in pool if not (families.ops_of(p) & {"yield", "await", "nwait", "park"})]
+    rng.shuffle(pool)
+    pool = pool[: (45 if ctx.tier == "quick" else 300)]
+    # unbounded reference
+    U = core.run_loom(ctx, pool, cfg_of=lambda p: {"iter_cap": 200000}, tag="unb")
+    progs = [p for p, u in zip(pool, U) if u["end"] == "ok"]
+    U = [u for u in U if u["end"] == "ok"]
+    nops = [sum(len(t) for t in p["threads"]) for p in progs]
+    bounds = list(range(0, 7))
+    items, meta = [], []
+    for i, p in enumerate(progs):
+        for n in bounds + [max(7, nops[i])]:
+            items.append({"prog": p, "cfg": {"preemption_bound": n, "trace_cap": 25 if ctx.tier == "quick" else 200,
+                                             "want_paths": True, "path_cap": 400, "iter_cap": 200000}})
+            meta.append((i, n))
+    R = loomrun.run_items(os.path.join(ctx.work, "bounded"), items, jobs=ctx.jobs, tag="bounded")
+    ctx.cov["loom_iterations"] += sum(r.get("iters", 0) for r in R)
+    keys = {}
+    for (i, n), r in zip(meta, R):
+        p = progs[i]
+        if r["end"] == "capped":
+            ctx.cov["capped_programs"] += 1       # too many iterations for this tier: decides nothing
+            continue
+        if r["end"] != "ok":
+            ctx.violation("bounded-run-failed", p, {"bound": n, "end": r["end"]}, {"msg": r["msg"]})
+            continue
+        keys[(i, n)] = loomrun.loom_keys(r)
+    nontriv = 0
+    for i, p in enumerate(progs):
+        ku = loomrun.loom_keys(U[i])
+        prev = None
+        for n in bounds + [max(7, nops[i])]:
+            k = keys.get((i, n))
+            if k is None:
+                continue
+            for w in sorted(k - ku):
+                ctx.violation("bounded-not-in-unbounded", p, {"bound": n, "outcome": w}, {})
+            if prev is not None:
+                for w in sorted(prev[1] - k):
+                    ctx.violation("not-monotone", p, {"bound_small": prev[0], "bound_large": n, "outcome": w}, {})
+            prev = (n, k)
+        big = keys.get((i, max(7, nops[i])))
+        if big is not None:
+            for w in sorted(ku - big):
+                ctx.violation("large-bound-incomplete", p, {"bound": max(7, nops[i]), "outcome": w}, {"ops": nops[i]})
+        if len(ku) >= 2 and keys.get((i, 0)) is not None and len(keys[(i, 0)]) < len(ku):
+            nontriv += 1
+    # every recorded iteration: independent preemption count <= n (LoomSemTrace) and pushed schedules within bound (ExploreTrace)
+    tp = [progs[i] for (i, n) in meta]
+    import core as _c
+    _c.validate_traces(ctx, tp, R, pb_of=lambda j: meta[j][1], label="trace_bounded")
+    runs = [({"prog": meta[j][0], "bound": meta[j][1]}, R[j]["hook_events"]) for j in range(len(R)) if R[j]["end"] == "ok"
+            and len(R[j]["hook_events"]) < 400]
+    rej = pathcheck.validate(ctx, runs)
+    for m, info in rej:
+        ctx.violation("path-rejected", progs[m["prog"]], {"bound": m["bound"], **info}, {})
+    enginecheck.run_engine(ctx, ["ExploreMC_small_b1.cfg", "ExploreMC_hash_b0.cfg", "ExploreMC_hash_b1.cfg", "ExploreMC_hash_b2.cfg"])
+    ctx.cov["programs"] += len(progs)
+    ctx.cov["evaluations"] += len(items)
+    ctx.cov["distinct_nontrivial"] += nontriv
+    ctx.cov["rule"] = "non-trivial = programs whose bound-0 result set is strictly smaller than the unbounded one"
+    if progs:
+        ctx.cov["samples"].append({"program": dsl.pretty(progs[0]), "outcomes_by_bound": {str(n): len(keys.get((0, n), [])) for n in bounds},
+                                   "unbounded": len(loomrun.loom_keys(U[0]))})
+
+
+CHECKS = {"C15": C15, "C13": C13, "C14": C14, "C10": C10, "C11": C11, "C01": C01, "C04": C04, "C05": C05, "C07": C07, "C08": C08, "C09": C09, "C02": C02, "C03": C03}
